@@ -66,7 +66,7 @@ pub fn cases(thorough: bool) -> Vec<Case> {
     let mut prefixes: Vec<String> = vec!["0x".into(), "".into(), "0".into(), "x".into(), "0xg".into(), "0x\u{e9}".into(), "0x 1".into(), "0X1".into(), "0xx".into()];
     for d in ["0", "9", "a", "f", "A", "F"] { prefixes.push(format!("0x{d}")); } for d in ["00", "aF", "Fa", "F0", "9E", "zz", "a\u{e9}"] { prefixes.push(format!("0x{d}")); } for d in ["aBc", "FFF", "12g"] { prefixes.push(format!("0x{d}")); }
     for p in &prefixes { for j in ["0", "1", "2", "16", "64"] { if p.len() == 5 && j != "16" && !thorough { continue; }
-        v.push(Case { class: format!("vanity:digits={},j={j}", p.len().saturating_sub(2)), cmd: Cmd::new(&["new", "--vanity-prefix", p, "-j", j]).timeout(240), shim: Some(Mode::Stream { seed: 31, fail_at: Some(if p.len() >= 5 { 60000 } else { 6000 }) }) }); } }
+        v.push(Case { class: format!("vanity:digits={},j={j}", p.len().saturating_sub(2)), cmd: Cmd::new(&["new", "--vanity-prefix", p, "-j", j]).timeout(600), shim: Some(Mode::Stream { seed: 31, fail_at: Some(if p.len() >= 5 { 60000 } else { 6000 }) }) }); } }
     for j in ["0", "1", "2", "16"] { for a in [vec!["--vanity-account-index", "4294967296"], vec!["--vanity-account-index", "2147483648"], vec!["--vanity-account-index", "18446744073709551615"], vec!["--vanity-hd-path", "m/x"], vec!["--vanity-hd-path", "m/2147483648'"], vec!["--vanity-hd-path", ""], vec!["--vanity-account-index", "1", "--vanity-hd-path", "m/0"]] {
         let mut cmd = Cmd::new(&["new", "--vanity-prefix", "0x1", "-j", j]).timeout(15); for x in &a { cmd = cmd.arg(x); }
         v.push(Case { class: format!("vanity:bad-account-selector,j={j}"), cmd, shim: Some(Mode::Stream { seed: 32, fail_at: Some(2000) }) }); } }
